@@ -6,11 +6,22 @@ from .harness import Ctx
 from .decode import make_processor
 
 
-def observe_all(b, dsg):
-    """Everything an existing graph object reports (through its public API), in names."""
+def observe_all(b, dsg, feasible_first=False):
+    """Everything an existing graph object reports (through its public API), in names. Connector grouping nodes are
+    shared between graphs and refreshed by some calls: the order of the queries decides which stale value would be
+    seen, so every graph is observed in two orders (connection sets first / feasibility first)."""
     from adsg_core.graph.adsg_nodes import SelectionChoiceNode, ConnectionChoiceNode
     nodes, choices, conn, der = b.observe(dsg)
     out = dict(nodes=nodes, choices=choices, conn=conn, der=der)
+    if feasible_first:
+        try:
+            out['feasible_first'] = bool(dsg.feasible)
+        except Exception as e:  # noqa
+            out['feasible_first'] = f'raise {type(e).__name__}'
+        try:
+            out['unconnected_first'] = tuple(sorted(b.name_of.get(n, '?') for n in dsg.unconnected_connectors))
+        except Exception as e:  # noqa
+            out['unconnected_first'] = f'raise {type(e).__name__}'
     # valid connection sets of every connection choice in the graph -- queried first, before any other call that
     # might refresh shared connector state
     cs = []
@@ -62,29 +73,38 @@ def persist_member(desc, tier, seed):
     except Exception:
         return ctx.result()
     live = [('base', b.dsg)]
-    snaps = {'base': observe_all(b, b.dsg)}
+
+    def snap(g):
+        a = observe_all(b, g)
+        a.update(observe_all(b, g, feasible_first=True))
+        return a
+    snaps = {'base': snap(b.dsg)}
 
     def recheck(op):
-        for name, g in live:
-            now = observe_all(b, g)
-            was = snaps[name]
-            diff = [k for k in was if was[k] != now[k]]
-            ctx.check('C08.existing-graph-unchanged', not diff, ['graph-api', op, name],
-                      f'after {op} the live graph {name!r} reports different {diff}: '
-                      f'{[(k, was[k], now[k]) for k in diff][:2]}', (desc.label, op, name))
+        # pass 1: connection sets first; pass 2 (reverse order, so that the shared state was last refreshed by another
+        # graph): feasibility first
+        for first, seq in ((False, live), (True, list(reversed(live)))):
+            for name, g in seq:
+                now = observe_all(b, g, feasible_first=first)
+                was = snaps[name]
+                diff = [k for k in now if was.get(k) != now[k]]
+                ctx.check('C08.existing-graph-unchanged', not diff, ['graph-api', op, name],
+                          f'after {op} the live graph {name!r} reports different {diff}: '
+                          f'{[(k, was.get(k), now[k]) for k in diff][:2]}', (desc.label, op, name, first))
 
     def derive(name, g, depth):
         if depth > (2 if tier == 'quick' else 3):
             return
         try:
-            if not g.feasible:
-                return   # further derivation is only defined for feasible graphs
+            infeasible = not g.feasible
         except Exception:
             return
         # copy
         c = g.copy()
         add(f'{name}.copy', c, f'copy({name})')
         for cn in list(g.get_ordered_next_choice_nodes()):
+            if cn not in g.graph.nodes:
+                continue     # a graph reported infeasible can still list choices that it has already lost
             if isinstance(cn, SelectionChoiceNode):
                 for o in g.get_option_nodes(cn):
                     op = f'{name}.sel({cn.decision_id}={b.name_of.get(o)})'
@@ -123,7 +143,7 @@ def persist_member(desc, tier, seed):
     def add(name, g, op):
         if len(live) > 90:
             return
-        snaps[name] = observe_all(b, g)
+        snaps[name] = snap(g)
         recheck(op)
         live.append((name, g))
 
@@ -145,7 +165,7 @@ def persist_member(desc, tier, seed):
             c2 = valued.copy()
             add('base.valued.copy', c2, 'copy(base.valued)')
             store(c2, 1)
-            snaps['base.valued.copy'] = observe_all(b, c2)      # its own values were changed on purpose
+            snaps['base.valued.copy'] = snap(c2)      # its own values were changed on purpose
             recheck('store values on base.valued.copy')
             for cn in list(valued.get_ordered_next_choice_nodes())[:1]:
                 if isinstance(cn, SelectionChoiceNode):
@@ -154,7 +174,7 @@ def persist_member(desc, tier, seed):
                         nm = f'base.valued.sel({cn.decision_id}={b.name_of.get(o)})'
                         add(nm, d, nm)
                         store(d, 2)
-                        snaps[nm] = observe_all(b, d)
+                        snaps[nm] = snap(d)
                         recheck(f'store values on {nm}')
         except Exception as e:  # noqa
             ctx.check('C08.stored-values-api-total', False, ['graph-api', 'store-values'], f'{type(e).__name__}: {e}',
